@@ -54,13 +54,15 @@ def _make(t1x, t1y, t2x, t2y, w, off):
   root, nodes = fam.make(3, [(-1, -1), (t1x, t1y), (t2x, t2y)], [(0, 0), (w, w), (w, w)],
                          leaves=[(off + 1, off + 2), (off + 3, off + 4), (off + 5, off + 6)], share=True)
   nodes[0].z = {'a': [off + 7], 'b': off + 8}
+  nodes[1].z = ([off + 9], [off + 9], off + 10)      # a tuple holding two equal but distinct lists
   fdl.add_tag(nodes[0], 'x', T0)
   fdl.add_tag(nodes[2], 'z', T1)              # value-less tagged argument on the root
   return root, nodes
 
 
 EDITS = ['leaf', 'callable_same_sig', 'callable_drops_param', 'arg_add', 'arg_remove', 'tag_add', 'tag_remove',
-         'alias_create', 'alias_break', 'move_subtree', 'container_edit', 'replace_subtree', 'swap_children', 'rotate3']
+         'alias_create', 'alias_break', 'move_subtree', 'container_edit', 'replace_subtree', 'swap_children', 'rotate3',
+         'tuple_alias_create', 'tuple_elements_swap']
 
 
 def _nodes_of(root):
@@ -131,10 +133,18 @@ def _edit(e, root, i, off):
     root.x = fdl.Config(fam.g4, x=off + 80, y=[nodes[-1]] if nodes[-1] is not root else None)
   elif e == 12:
     root.x, root.y = root.y, root.x
-  else:
+  elif e == 13:
     if fdl.get_callable(root) is two:
       return False
     root.x, root.y, root.z = root.__arguments__.get('y'), root.__arguments__.get('z', off + 90), root.x
+  else:
+    # an equal tuple whose memoizable elements alias differently (e == 14) or trade places (e == 15)
+    for b in nodes:
+      t = b.__arguments__.get('z')
+      if isinstance(t, tuple) and len(t) == 3 and isinstance(t[0], list):
+        b.z = (t[0], t[0], t[2]) if e == 14 else (t[1], t[0], t[2])
+        return True
+    return False
   return True
 
 
@@ -143,11 +153,11 @@ def c10_pair(mode: int, e1: int, e2: int, i1: int, i2: int, w: int, t1x: int, t1
   """
   mode 0: new = deepcopy(old) + edits; 1: new = shallow copy of old + edits (shares objects with old by identity);
   2: new = an unrelated member (targets u*) + edits.
-  require: 0 <= mode <= 2 and 0 <= e1 <= 13 and 0 <= e2 <= 13 and 0 <= i1 <= 2 and 0 <= i2 <= 2 and 0 <= w <= 5
+  require: 0 <= mode <= 5 and 0 <= e1 <= 15 and 0 <= e2 <= 15 and 0 <= i1 <= 2 and 0 <= i2 <= 2 and 0 <= w <= 5
   require: -1 <= t1x <= 0 and -1 <= t1y <= 0 and -1 <= t2x <= 1 and -1 <= t2y <= 1
   require: -1 <= u1x <= 0 and -1 <= u2x <= 1 and -1 <= u2y <= 1
   """
-  e1, e2, i1, i2 = _conc(e1, 0, 13), _conc(e2, 0, 13), _conc(i1, 0, 2), _conc(i2, 0, 2)
+  e1, e2, i1, i2 = _conc(e1, 0, 15), _conc(e2, 0, 15), _conc(i1, 0, 2), _conc(i2, 0, 2)
   t1x, t1y, t2x, t2y = _conc(t1x, -1, 0), _conc(t1y, -1, 0), _conc(t2x, -1, 1), _conc(t2y, -1, 1)
   u1x, u2x, u2y = _conc(u1x, -1, 0), _conc(u2x, -1, 1), _conc(u2y, -1, 1)
   old, _ = _make(t1x, t1y, t2x, t2y, w, 0)
@@ -155,11 +165,20 @@ def c10_pair(mode: int, e1: int, e2: int, i1: int, i2: int, w: int, t1x: int, t1
     new = copy.deepcopy(old)
   elif mode == 1:
     new = copy.copy(old)
-  else:
+  elif mode == 2:
     new, _ = _make(u1x, -1, u2x, u2y, (w + 1) % 6, 100)
+  elif mode == 3:
+    new = fdl.Config(fdl.get_callable(old), x=old, y=[old])        # new wraps old itself (a root shared by identity)
+  elif mode == 4:
+    kids = [v for v in old.__arguments__.values() if isinstance(v, fdl.Config)]
+    if not kids:
+      return True
+    new = kids[0]                                                   # new is a part of old
+  else:
+    new = old                                                       # the very same object
   try:
-    a1 = _edit(e1, new, i1, 200)
-    a2 = _edit(e2, new, i2, 300)
+    a1 = _edit(e1, new, i1, 200) if mode <= 2 else False
+    a2 = _edit(e2, new, i2, 300) if mode <= 2 else False
   except (AttributeError, TypeError, KeyError):
     return True          # the second edit has no subject after the first one (e.g. the parameter is gone)
   if mode == 1:
@@ -221,9 +240,9 @@ def c10_positional(kind: int) -> bool:
 def obligations(tier, seed):
   cubes = []
   for mode in range(3):
-    for e1 in range(14):
-      for e2 in range(14):
-        if tier == 'quick' and (e1 * 14 + e2 + mode) % 5:
+    for e1 in range(16):
+      for e2 in range(16):
+        if tier == 'quick' and (e1 * 16 + e2 + mode) % 5:
           continue
         j = mode + e1 + e2
         fix = dict(mode=mode, e1=e1, e2=e2)
@@ -236,11 +255,15 @@ def obligations(tier, seed):
         cubes.append(Cube(f'm{mode}_e{e1}_{e2}', [], fix, est=54 if mode != 2 else 108))
   if tier != 'quick':
     cubes = [Cube(c.tag + f'_w{w}', c.pre, dict(c.fix, w=w), c.est * 4) for c in cubes for w in range(6)]
+  for mode in (3, 4, 5):
+    for w in range(6):
+      cubes.append(Cube(f'm{mode}_w{w}', [], dict(mode=mode, w=w, e1=0, e2=0, i1=0, i2=0, u1x=-1, u2x=-1, u2y=-1), est=36))
   t = 300 if tier == 'quick' else 900
   smoke = dict(mode=0, e1=0, e2=5, i1=1, i2=2, w=1, t1x=0, t1y=-1, t2x=1, t2y=0, u1x=-1, u2x=-1, u2y=-1)
   return [
       Obligation('c10_pair', c10_pair, cubes, timeout=t, path_timeout=60, smoke=smoke,
-                 extra_smokes=[dict(smoke, mode=e % 3, e1=e, e2=(e + 5) % 14, w=e % 6, u2x=0 if e % 3 == 2 else -1) for e in range(14)]),
+                 extra_smokes=[dict(smoke, mode=e % 3, e1=e, e2=(e + 5) % 16, w=e % 6, u2x=0 if e % 3 == 2 else -1) for e in range(16)] +
+                 [dict(smoke, mode=m, e1=0, e2=0) for m in (3, 4, 5)]),
       Obligation('c10_empty', c10_empty, [Cube(f'w{w}', [], dict(w=w)) for w in range(6)], timeout=120, path_timeout=60,
                  smoke=dict(w=1, t1x=0, t1y=-1, t2x=1, t2y=0)),
       Obligation('c10_positional', c10_positional, [Cube(f'k{k}', [], dict(kind=k)) for k in range(2)], timeout=60,
